@@ -63,6 +63,7 @@ type ActCall struct {
 	Ctx  *Ctx
 	Call ssa.CallInstruction
 	PC   *Formula
+	Pre  *Formula // the path condition of the call chain leading into Fn (⊤ in the root itself)
 	Key  string
 	Fn   *ssa.Function
 }
@@ -146,7 +147,7 @@ func (ck *Check) bodyCalls(root *ssa.Function, match func(ssa.CallInstruction) b
 		for _, ci := range callsIn(fn, nil) {
 			pc := And(prefix, ctx.PC(ci))
 			if match(ci) {
-				out = append(out, ActCall{Ctx: ctx, Call: ci, PC: pc, Key: keyPrefix + ck.P.siteKey(ci), Fn: fn})
+				out = append(out, ActCall{Ctx: ctx, Call: ci, PC: pc, Pre: prefix, Key: keyPrefix + ck.P.siteKey(ci), Fn: fn})
 				continue
 			}
 			h := ci.Common().StaticCallee()
@@ -517,7 +518,7 @@ func (ck *Check) lockBodies(rule string) {
 		for _, b := range fn.Blocks {
 			for _, at := range ctx.BlockPC(b).Atoms() {
 				if at.Kind == "cmp" && at.Name == "<" {
-					x, y := at.Args[0], at.Args[1]
+					x, y := ctx.seeThrough(at.Args[0]), at.Args[1]
 					if x.Kind == "call" && x.Name == "time.Since" && len(x.Args) == 1 && x.Args[0].Kind == "field" && x.Args[0].Obj == fLockTime && x.Args[0].Args[0].Key() == recv.Key() &&
 						y.Kind == "field" && y.Obj == fMin && y.Args[0].Key() == recv.Key() {
 						elapsed = at
@@ -1313,4 +1314,73 @@ func (ck *Check) statePersistence(rule string) {
 		ck.ok(rule, "state/persistence", "", funcID(a.RunOnce), "nothing reachable from RunOnce replaces a group's state or scale lock as a whole", fmt.Sprintf("%d functions examined", len(fns)))
 	}
 	ck.floor(rule, "functions reachable from RunOnce", len(fns), 20)
+}
+
+// cloudStepDelta: the term of "the number of nodes the cloud step was asked for": the nodesDelta
+// field of its options parameter, or its integer parameter.
+func (ck *Check) cloudStepDelta(ctx *Ctx, fn *ssa.Function) *Term {
+	a := ck.A
+	if prm := ck.paramOfType(fn, a.TScaleOpts, false); prm != nil {
+		if f := field(a.TScaleOpts, "nodesDelta"); f != nil {
+			return mkField(paramTerm(prm), f)
+		}
+	}
+	var ints []*ssa.Parameter
+	for _, p := range fn.Params {
+		if isInteger(p.Type()) {
+			ints = append(ints, p)
+		}
+	}
+	if len(ints) == 1 {
+		return paramTerm(ints[0])
+	}
+	return nil
+}
+
+// onlyTheMaximumClamps (C05.R9): the cloud request is cut short by the maximum only — in every case
+// either the whole delta the cloud step was asked for is requested, or the request takes the
+// target exactly to max_nodes or to the cloud maximum. A clamp measured from anything larger than
+// TargetSize() (instances listed, a stale value) buys too few nodes although the maximum is not
+// reached.
+func (ck *Check) onlyTheMaximumClamps(rule string) {
+	a := ck.A
+	fn := a.CloudStep
+	if fn == nil {
+		ck.lost(rule, "cloud step", "not resolved")
+		return
+	}
+	ctx := ck.P.NewCtx(fn)
+	g := ck.groupTerm(fn)
+	n := 0
+	for _, s := range a.A {
+		if s.Class != "A-CLOUD-INC" || s.Fn != fn || g == nil {
+			continue
+		}
+		n++
+		key := ck.P.siteKey(s.Call) + "/only-the-maximum-clamps"
+		cc := s.Call.Common()
+		cp := ctx.Term(cc.Value)
+		d := ctx.Term(cc.Args[0])
+		tsT, cmaxT := ck.findInvoke(ctx, fn, cp, "TargetSize"), ck.findInvoke(ctx, fn, cp, "MaxSize")
+		delta := ck.cloudStepDelta(ctx, fn)
+		if tsT == nil || cmaxT == nil || delta == nil {
+			ck.undecided(rule, key, ck.P.instrPos(s.Call), funcID(fn), "the clamp reads TargetSize() and MaxSize() of the group it resizes, and the delta asked for is a parameter of the cloud step", "not found")
+			continue
+		}
+		maxT := ck.optTerm(g, "max_nodes")
+		pc := ctx.PC(s.Call)
+		sum := &Term{Kind: "binop", Name: "+", Args: []*Term{tsT, d}}
+		alts := []LinFact{
+			{A: delta, B: d, K: 0, Text: "Δ ≤ d (the whole delta)"},
+			{A: cmaxT, B: sum, K: 0, Text: "cloud MaxSize ≤ TargetSize + d"},
+			{A: maxT, B: sum, K: 0, Text: "max_nodes ≤ TargetSize + d"},
+		}
+		okv, why, err := ctx.EntailsLinearAny(pc, alts)
+		if err != nil {
+			ck.undecided(rule, key, ck.P.instrPos(s.Call), funcID(fn), "d = Δ, or TargetSize + d reaches max_nodes / the cloud maximum", err.Error())
+			continue
+		}
+		ck.cond(okv, rule, key, ck.P.instrPos(s.Call), funcID(fn), "PC ⇒ d ≥ Δ ∨ TargetSize + d ≥ cloud MaxSize ∨ TargetSize + d ≥ max_nodes", pc.String(), "fewer nodes are requested than needed although the maximum is not reached: "+why)
+	}
+	ck.floor(rule, "IncreaseSize call sites in the cloud step", n, 1)
 }
